@@ -5,6 +5,7 @@
 EXTENDS Integers, Sequences, FiniteSets, TLC, Json
 G  == INSTANCE Grammar
 KF == INSTANCE KnownFindings
+RT == INSTANCE RoundTrip
 
 CONSTANTS ResFile, VerdictFile, Prop, Shards
 Lines == ndJsonDeserialize(ResFile)
@@ -46,7 +47,13 @@ C01one(c, r, tag) == (IF r.outcome \in {"ok","err"} THEN <<>> ELSE <<Fail("C01",
                   \o (IF Work(r) THEN <<>> ELSE <<Fail("C01", c, "parser work not linear in the tokens" \o tag, "none")>>)
 C01(c) == C01one(c, c.res, "") \o C01one(c, c.resdf, " (default field)")
 
-Judge(c) == CASE Prop = "C01" -> C01(c) [] Prop = "C06" -> C06(c) [] Prop = "C10" -> C10(c) [] Prop = "C11" -> C11(c)
+\* C12: JSON round trip of every returned expression
+C12one(c, key, r, tag) == IF key \notin DOMAIN c THEN <<>>
+                          ELSE IF RT!RtVerdict(c[key], r.tree) = "" THEN <<>>
+                          ELSE <<Fail("C12", c, RT!RtVerdict(c[key], r.tree) \o tag, "none")>>
+C12(c) == C12one(c, "rt", c.res, "") \o C12one(c, "rtdf", c.resdf, " (default field)")
+
+Judge(c) == CASE Prop = "C12" -> C12(c) [] Prop = "C01" -> C01(c) [] Prop = "C06" -> C06(c) [] Prop = "C10" -> C10(c) [] Prop = "C11" -> C11(c)
 
 \* the file is judged in Shards independent behaviours (shard sh takes lines sh+1, sh+1+Shards, ...), which
 \* TLC explores in parallel with -workers
